@@ -59,7 +59,7 @@ VALUES = ["", "a", "b", "c", "x y", "handle:", "handle:AAAAAAAAAAAAAAAAAAAA", "h
           "\u202e", "e\u0301", "\u1e9e", "İ", "ß", "true ", "FALSE", "0.0", "١٢", "handle:RAW00000000000000009"]
 SAFE_VALUES = ["a", "b", "c", "x y", "handle:", "handle:AAAAAAAAAAAAAAAAAAAA", "true", "false", "0", "12", "é", "日本語",
                "a,b", "", "nope", "-r", "=", ":l", "!inc", "'", "(", "not", "😀"]
-INDEXES = ["0", "1", "2", "3", "4", "5", "6", "7", "10", "-1", "+1", "+0", "01", "007", "abc", "", "1.0", " 1", "1 ", "-0",
+INDEXES = ["0", "1", "2", "3", "4", "5", "6", "7", "10", "149", "150", "255", "256", "292", "293", "299", "300", "-1", "+1", "+0", "01", "007", "abc", "", "1.0", " 1", "1 ", "-0",
            "18446744073709551615", "18446744073709551616", "99999999999999999999999999", "٣", "+", "-", "0x1", "1e1",
            "4294967296", "9223372036854775807", "9223372036854775808"]
 RANGE_ARGS = ["0", "1", "2", "3", "5", "-2", "-1", "+3", "10", "abc", "", "1.5", "9223372036854775807",
@@ -221,7 +221,9 @@ class Gen:
             a = self.some_values(0, 4)
             self.note(len(self.ops), self.keys, a)
         elif name == "range":
-            if r.random() < 0.8:
+            if r.random() < 0.04:
+                a = [lit(str(r.choice([0, -150, 7]))), lit(str(r.choice([256, 300, 150])))]      # a few hundred items
+            elif r.random() < 0.8:
                 s = r.randint(-3, 5)
                 a = [lit(str(s)), lit(str(s + r.choice([0, 0, 1, 2, 3, 5, 8, -1])))]
             else:
